@@ -9,7 +9,7 @@ import (
 // InitGenesis initializes the capability module's state from a provided genesis
 // state.
 func InitGenesis(ctx sdk.Context, k keeper.Keeper, genState types.GenesisState) {
-	var auctionID, userBidID uint64
+	auctionID, userBidID := genState.AuctionId, genState.UserBiddingID
 	for _, item := range genState.Auction {
 		k.SetGenAuction(ctx, item)
 	}
